@@ -307,11 +307,9 @@ func (n *node[T]) mergeChild() {
 		}
 
 		p := n.parent
-		p.children = removeNodes(p.children, n.segment.Value)
 		c.segment = seg // 继续使用 c 对象本身，理由与 splitNode 相同。
 		c.parent = p
-		p.children = append(p.children, c)
-		p.sort()
+		p.children[slices.Index(p.children, n)] = c // 类型不变，保留在原来的位置：删除路由项不能改变其它节点之间的顺序。
 		n = c
 	}
 }
